@@ -7,7 +7,9 @@ import (
 	"os/exec"
 	"path/filepath"
 	"strings"
+	"sync"
 	"testing"
+	"time"
 
 	"github.com/hashicorp/go-slug/sourceaddrs"
 	"github.com/hashicorp/go-slug/sourcebundle"
@@ -549,5 +551,98 @@ var subArchiveWriter = ev.Register("archivewriter", func(c ArchiveCase) error {
 func TestPropArchiveWriter(t *testing.T) {
 	ev.Check(t, subArchiveWriter, func(t *rapid.T) ArchiveCase {
 		return ArchiveCase{World: world.Gen(t, world.Config{MaxRemotes: 2, MaxRegistry: 1, NFinders: nFinders, RichTrees: rapid.Bool().Draw(t, "rich")}), Only: -1}
+	})
+}
+
+// ---------------------------------------------------------------------------
+// (c'') a failing Add call while another Add call on the same builder is
+// waiting: the waiting call must not carry on with a builder that has just
+// been given up - it may report or panic, but nothing may be written outside
+// the target directory and no bundle may come out.
+
+type PoisonCase struct {
+	World   world.World `json:"world"`
+	DelayUs int         `json:"delay_us"` // how long after the failing call the second one starts
+}
+
+var subPoison = ev.Register("concurrentpoison", func(c PoisonCase) error {
+	arena, cleanup := fsx.Scratch("c12p-")
+	defer cleanup()
+	target := filepath.Join(arena, "bundle")
+	os.Mkdir(filepath.Join(arena, "cwd"), 0755)
+	os.Mkdir(filepath.Join(arena, "tmp"), 0777)
+	oldWd, _ := os.Getwd()
+	oldTmp := os.Getenv("TMPDIR")
+	os.Chdir(filepath.Join(arena, "cwd"))
+	os.Setenv("TMPDIR", filepath.Join(arena, "tmp"))
+	defer func() {
+		os.Chdir(oldWd)
+		os.Setenv("TMPDIR", oldTmp)
+	}()
+	h := world.NewHarness(c.World, nFinders)
+	h.Faults = []world.Fault{{Kind: "fetch", N: 1}} // the first fetch - the first call's - fails
+	h.OnBoundary = func(string) { time.Sleep(300 * time.Microsecond) }
+	run, err := world.Start(h, target)
+	if err != nil {
+		return fmt.Errorf("harness: %v", err)
+	}
+	before, err := fsx.Snapshot(arena, func(rel string) bool { return rel == "bundle" })
+	if err != nil {
+		return fmt.Errorf("harness: %v", err)
+	}
+	ctx := h.Context("full")
+	results := make([]world.CallResult, len(c.World.Script))
+	var wg sync.WaitGroup
+	for i := range c.World.Script {
+		wg.Add(1)
+		go func(i int) {
+			defer wg.Done()
+			if i > 0 {
+				time.Sleep(time.Duration(c.DelayUs*i) * time.Microsecond)
+			}
+			results[i] = run.DoCall(ctx, c.World.Script[i])
+		}(i)
+	}
+	wg.Wait()
+	ev.NonTrivial(c, "failing-call-with-waiting-calls")
+	after, err := fsx.Snapshot(arena, func(rel string) bool { return rel == "bundle" })
+	if err != nil {
+		return fmt.Errorf("harness: %v", err)
+	}
+	if d := fsx.Diff(before, after, "type size sum target"); len(d) > 0 {
+		if len(d) > 5 {
+			d = d[:5]
+		}
+		return fmt.Errorf("a failing Add call with other Add calls waiting on the same builder: the directory around the target changed: %s", strings.Join(d, "; "))
+	}
+	anyErr := false
+	for _, r := range results {
+		if r.Panicked == nil && r.Diags.HasErrors() {
+			anyErr = true
+		}
+	}
+	if !anyErr {
+		ev.Label("fault-did-not-surface")
+		return nil
+	}
+	run.Close()
+	if run.ClosePanic == nil {
+		return fmt.Errorf("an Add call reported an error, but Close returned (bundle=%v err=%v): no bundle may come out of a failed build", run.Bundle != nil, run.CloseErr)
+	}
+	return nil
+})
+
+func TestPropConcurrentPoison(t *testing.T) {
+	ev.Check(t, subPoison, func(t *rapid.T) PoisonCase {
+		w := world.Gen(t, world.Config{MaxRemotes: 3, MaxRegistry: 0, NFinders: nFinders})
+		// one Add call per package, the first one first
+		w.Script = nil
+		for _, p := range w.Remotes {
+			w.Script = append(w.Script, world.AddCall{Kind: "remote", Addr: p.Addr})
+		}
+		if len(w.Script) == 1 {
+			w.Script = append(w.Script, world.AddCall{Kind: "remote", Addr: w.Remotes[0].Addr + "//modules/a"})
+		}
+		return PoisonCase{World: w, DelayUs: rapid.SampledFrom([]int{0, 50, 200, 600}).Draw(t, "delay")}
 	})
 }
